@@ -34,6 +34,10 @@ def Range.clone_derived (self : RangeSelf) : M RangeNew := do
 /-- `ConIterOfRange` derives `Clone` and has no hand-written one -/
 theorem range_clone_is_derived : "Clone" ∈ Range.derives ∧ Range.manual_clone = false := by decide
 
+/-- the hand-written `Clone` impls define `clone` only: `clone_from` / `ToOwned::clone_into` are std's defaults,
+`*self = source.clone()` -/
+theorem clone_impls_define_clone_only : NewSlice.clone_methods = ["clone"] ∧ NewCounter.clone_methods = ["clone"] := by decide
+
 theorem range_clone (a b c : Nat) (evs dr) :
     Range.clone_derived ⟨⟨a, b⟩, {}⟩ (st c evs dr) = .ok ⟨⟨a, b⟩, ⟨c⟩⟩ (st c (evs ++ [.ld (.ctr 0) .seqcst c]) dr) := rfl
 
